@@ -199,7 +199,11 @@ class ContinuousVariable(Variable):
         return self.lower_bound, self.upper_bound
 
     def correct(self, value: float | int) -> float:
-        return float(np.clip(float(value), self.lower_bound, self.upper_bound))
+        value = float(value)
+        if np.isnan(value):
+            # NaN has no closest bound: draw the coordinate again
+            value = self.randomize()
+        return float(np.clip(value, self.lower_bound, self.upper_bound))
 
     def decode(self, value: float) -> float:
         return value
@@ -268,6 +272,9 @@ class DiscreteVariable(Variable):
 
     def correct(self, value: float | int) -> int:
         lb, ub = self.get_bounds()
+        if np.isnan(value):
+            # NaN has no closest index: draw the coordinate again
+            return int(self.randomize())
         return int(np.clip(value, lb, ub))
 
     def decode(self, value: float | int) -> Any:
@@ -341,7 +348,10 @@ class PermutationVariable(Variable):
         # a permutation of the item indexes is already a member of the domain: keep it as is, so that
         # correcting (or decoding) an already corrected value does not invert it
         value = np.asarray(value)
-        if value.ndim == 1 and np.array_equal(np.sort(value), np.arange(len(self.items))):
+        if value.shape != (len(self.items),):
+            # not one key per item (e.g. a NaN scalar broadcast by an algorithm): draw the permutation again
+            return self.randomize()
+        if np.array_equal(np.sort(value), np.arange(len(self.items))):
             return value.astype(int).tolist()
         return np.argsort(value).tolist()
 
